@@ -830,6 +830,7 @@ class Pile(Widget, WidgetContainerMixin, WidgetContainerListContentsMixin):
         _widths, heights, size_args = self.get_rows_sizes(size, focus)
 
         combinelist = []
+        hidden = False
         for i, (height, w_size, (w, _)) in enumerate(zip(heights, size_args, self.contents)):
             item_focus = self.focus == w
             canv = None
@@ -838,15 +839,21 @@ class Pile(Widget, WidgetContainerMixin, WidgetContainerListContentsMixin):
 
             if canv:
                 combinelist.append((canv, i, item_focus))
+            else:
+                hidden = True
 
         if not combinelist:
-            return SolidCanvas(" ", size[0], (size[1:] + (0,))[0])
-
-        out = CanvasCombine(combinelist)
-        if len(size) == 2 and size[1] != out.rows():
-            # flow/fixed widgets rendered too large/small
+            out = CompositeCanvas(SolidCanvas(" ", size[0], (size[1:] + (0,))[0]))
+        else:
+            out = CanvasCombine(combinelist)
+            if len(size) == 2 and size[1] != out.rows():
+                # flow/fixed widgets rendered too large/small
+                out = CompositeCanvas(out)
+                out.pad_trim_top_bottom(0, size[1] - out.rows())
+        if hidden:
+            # an item without rows is not part of the canvas, but this rendering still depends on it
             out = CompositeCanvas(out)
-            out.pad_trim_top_bottom(0, size[1] - out.rows())
+            out.set_depends([w for w, _ in self.contents])
         return out
 
     def get_cursor_coords(self, size: tuple[()] | tuple[int] | tuple[int, int]) -> tuple[int, int] | None:
